@@ -425,6 +425,13 @@ template <class T> struct Maker<PhQ::ConstitutiveModel::CompressibleNewtonianFlu
                         "{ vrt::Count k; PhQ::ConvertInPlace(x, from, to); } vrt::consume(c, x);" % (E, E, ct))
                 if not cases:
                     continue
+                # compile-time conversions between a few enumerator pairs (free function templates with explicit arguments)
+                es_ = self.cat.units[U]["enumerators"]
+                pairs_ = list(dict.fromkeys([(es_[0], es_[-1]), (es_[-1], es_[len(es_) // 2]), (es_[len(es_) // 2], es_[0])]))
+                for (ea, eb) in pairs_:
+                    for label, ct in (("scalar", T), ("Vector", "PhQ::Vector<%s>" % T), ("Dyad", "PhQ::Dyad<%s>" % T)):
+                        add("ConvertStatically(%s)|%s->%s" % (label, ea, eb),
+                            "const auto x = vrt::make<%s>(c); auto r = [&] { vrt::Count k; return PhQ::ConvertStatically<%s, %s::%s, %s::%s>(x); }(); vrt::consume(c, r);" % (ct, E, E, ea, E, eb))
                 out.append("static void ops_unit_%s_%s(vrt::Ctx& c, int which) {\n  switch (which) {\n%s\n    default: break;\n  }\n}" % (U, TSHORT[T], "\n".join(cases)))
                 out.append("static const vrt::OpEntry table_unit_%s_%s[] = {\n%s\n};" % (U, TSHORT[T], "\n".join(entries)))
                 out.append("static const vrt::Registrar reg_unit_%s_%s{table_unit_%s_%s, %d};" % (U, TSHORT[T], U, TSHORT[T], len(entries)))
